@@ -34,7 +34,7 @@ TOL = 1e-10
 
 
 def BOUNDS(tier):
-    return {"depth": 3 if tier == "thorough" else 2, "state_cap_per_generator": 6000 if tier == "thorough" else 800,
+    return {"depth": 3 if tier == "thorough" else 2, "state_cap_per_generator": 3000 if tier == "thorough" else 800,
             "merge_decimals": [None, 0, 1, 2, 8], "revolve": "scalar angles, angle arrays (4 / 16 / 13 closed), axis 0 and 1"}
 
 
@@ -328,7 +328,7 @@ def run(case):
     viol, nontrivial, outcomes, notes = [], [], set(), []
     st = dict(trans=0, traces=0)
     depth = 3 if tier == "thorough" else 2
-    cap = 6000 if tier == "thorough" else 800
+    cap = 3000 if tier == "thorough" else 800
 
     def bad(sub, what, obs, exp, tol=TOL):
         if len(viol) < 60:
@@ -507,24 +507,38 @@ def _midpoint_check(bad, sub, mesh, new):
     import felupe as fem
 
     el = {4: fem.Quad, 8: fem.Hexahedron, 3: fem.Triangle}.get(nvert if mesh.dim != 3 or nvert != 4 else -1)
-    for cell in new.cells:
-        V = X[cell[:nvert]]
-        for col in range(ncol_old, new.cells.shape[1]):
-            p = X[cell[col]]
-            # the new point must be the mean of a subset of the cell's vertices: edge (2), face (3 or 4) or all
-            ok = False
-            for k in (2, 3, 4, nvert):
-                if k > nvert:
-                    continue
-                for comb in itertools.combinations(range(nvert), k):
-                    if np.abs(V[list(comb)].mean(0) - p).max() < 1e-13:
-                        ok = True
-                        break
-                if ok:
-                    break
-            if not ok:
-                bad(sub + "/centroid", "inserted mid-point is not the centroid of an edge, face or the cell", p.tolist(), "mean of 2, 3, 4 or all vertices of its cell")
-                return
+    # every new point must be the mean of a subset of its cell's vertices (edge: 2, face: 3 or 4, cell: all); it is attributed
+    # to the LARGEST such vertex set.  An edge / face shared by several cells gets ONE mid-point whatever the local numbering
+    # (winding) of the neighbouring cells is: no vertex set (global point ids) may own two different points.  (Geometrically
+    # coincident mid-points of DIFFERENT entities -- the two diagonals of a non-conforming triangulate(mode=0) split -- are
+    # not duplicates in this sense.)
+    combos = []
+    for k in sorted({nvert, 4, 3, 2}, reverse=True):
+        if k <= nvert:
+            combos += [cb_ for cb_ in itertools.combinations(range(nvert), k)]
+    newcols = list(range(ncol_old, new.cells.shape[1]))
+    owner = {}
+    if newcols:
+        W = np.zeros((len(combos), nvert))
+        for r_, cb_ in enumerate(combos):
+            W[r_, list(cb_)] = 1.0 / len(cb_)
+        Vall = X[new.cells[:, :nvert]]  # (c, nvert, dim)
+        Pall = X[new.cells[:, newcols]]  # (c, ncol, dim)
+        means = np.einsum("rv,cvd->crd", W, Vall)  # (c, ncomb, dim)
+        hit = np.abs(means[:, :, None, :] - Pall[:, None, :, :]).max(-1) < 1e-13  # (c, ncomb, ncol)
+        if not hit.any(1).all():
+            cc_, kk_ = np.argwhere(~hit.any(1))[0]
+            bad(sub + "/centroid", "inserted mid-point is not the centroid of an edge, face or the cell", Pall[cc_, kk_].tolist(), "mean of 2, 3, 4 or all vertices of its cell")
+            return
+        first = hit.argmax(1)  # index of the first (= largest) matching vertex set per (cell, new column)
+        for cc_ in range(new.cells.shape[0]):
+            cell = new.cells[cc_]
+            for kk_, col in enumerate(newcols):
+                ent = frozenset(int(cell[i]) for i in combos[first[cc_, kk_]])
+                owner.setdefault(ent, set()).add(int(cell[col]))
+    dups = [e_ for e_, ids in owner.items() if len(ids) > 1]
+    if dups:
+        bad(sub + "/duplicate-midpoints", "an edge / face shared by several cells received more than one mid-point", dict(entities=len(dups), example=sorted(dups[0])), 0)
     # cell (volume) mid-points specifically: last column after add_midpoints_volumes / faces of 2D cells = mean of ALL vertices
     if "volumes" in sub.split(">")[-1] or (mesh.dim == 2 and "faces" in sub.split(">")[-1]):
         col = new.cells.shape[1] - 1
